@@ -32,6 +32,7 @@ pub struct DefReport {
     pub shapes: Option<Shapes>,
     pub sample: Option<Value>,
     pub extra_count: usize,
+    pub partial_determined: usize,
 }
 
 pub fn run_parallel<T: Send>(n: usize, threads: usize, f: impl Fn(usize) -> T + Sync) -> Vec<T> {
@@ -97,6 +98,11 @@ fn leaves_consistent(def: &Def, g: &GraphData) -> bool {
 /// Product check of an accepted definition; findings are attributed to `only` (if Some: keep only
 /// findings of these properties) and renamed to `as_prop` (if Some).
 pub fn product_report(def: &Def, a: &Analysis, only: Option<&[&str]>, as_prop: Option<&str>, rep: &mut DefReport) {
+    product_report_with(def, a, only, as_prop, rep, false)
+}
+
+/// As `product_report`; `partial` adds the partial-lexing rules (C07) of `product::check_with`.
+pub fn product_report_with(def: &Def, a: &Analysis, only: Option<&[&str]>, as_prop: Option<&str>, rep: &mut DefReport, partial: bool) {
     let Some(g) = &a.graph else {
         rep.inconclusive = Some("no captured graph".into());
         return;
@@ -113,7 +119,9 @@ pub fn product_report(def: &Def, a: &Analysis, only: Option<&[&str]>, as_prop: O
         }
     };
     let prio = g.priorities();
-    let (findings, stats) = product::check(g, &reference, &prio, PRODUCT_CAP);
+    let (findings, stats) = product::check_with(g, &reference, &prio, PRODUCT_CAP, if partial { Some(def.has_look()) } else { None });
+    rep.extra_count += stats.partial_points;
+    rep.partial_determined += stats.partial_determined;
     rep.tuples = stats.tuples;
     rep.transitions = stats.transitions;
     rep.shapes = Some(g.shapes());
@@ -171,6 +179,20 @@ fn generic_product(seed: u64, i: usize, props: &[&str], as_prop: &str) -> DefRep
     let mut rep = base_report(&def, &a);
     if rep.accepted {
         product_report(&def, &a, Some(props), Some(as_prop), &mut rep);
+    }
+    rep.sample = Some(def_sample(&def, &a, &rep));
+    rep
+}
+
+/// C07 (L): per accepted definition and over all inputs, the condition under which the generated code of a partial
+/// lexer commits at the end of its buffer (graph state without transitions) versus reference determinedness.
+pub fn check_c07(seed: u64, i: usize) -> DefReport {
+    let def = mixed_def(seed, i);
+    let a = analyze::run_generate(&def);
+    let mut rep = base_report(&def, &a);
+    if rep.accepted {
+        product_report_with(&def, &a, Some(&["C07"]), None, &mut rep, true);
+        rep.nontrivial = rep.partial_determined > 0;
     }
     rep.sample = Some(def_sample(&def, &a, &rep));
     rep
@@ -803,6 +825,7 @@ pub fn dispatch(prop: &str) -> Option<fn(u64, usize) -> DefReport> {
         "C02" => check_c02,
         "C03" => check_c03,
         "C04" => check_c04,
+        "C07" => check_c07,
         "C08" => check_c08,
         "C09" => check_c09,
         "C10" => check_c10,
